@@ -1394,6 +1394,10 @@ pub fn run(cfg: &RunCfg, which: &str) -> Report {
             }
         }
         if agree && lean.is_some() { rep.traces_validated += 1; }
+        if std::env::var("BA_DUMP").is_ok() {
+            let hdr = vec![format!("property {} seed {} seq {} (op lines as sent to the Lean driver)", prop, cfg.seed, seq)];
+            write_replay(&prop, &format!("dump-{}-{}", cfg.seed, seq), &hdr, &lines);
+        }
         let nontrivial = published && activated && moved;
         if nontrivial && seen.insert(hash_lines(&lines)) { rep.distinct_nontrivial += 1; }
         if rep.samples.len() < 3 && nontrivial {
